@@ -71,6 +71,10 @@ func (s *snapshots) latest() (index, term uint64) {
 
 func (s *snapshots) meta() (snapshotMeta, error) {
 	index, _ := s.latest()
+	return s.metaOf(index)
+}
+
+func (s *snapshots) metaOf(index uint64) (snapshotMeta, error) {
 	if index == 0 {
 		return snapshotMeta{index: 0, term: 0}, nil
 	}
@@ -107,7 +111,22 @@ func (s *snapshots) applyRetain() error {
 // snapshot ----------------------------------------------------
 
 func (s *snapshots) open() (*snapshot, error) {
-	meta, err := s.meta()
+	// mark the snapshot as used before touching its files: a newer snapshot
+	// may be stored meanwhile, and its retention removes what nobody uses
+	s.usedMu.Lock()
+	index, _ := s.latest()
+	s.used[index]++
+	s.usedMu.Unlock()
+	snap, err := s.openIndex(index)
+	if err != nil {
+		s.unuse(index)
+		return nil, err
+	}
+	return snap, nil
+}
+
+func (s *snapshots) openIndex(index uint64) (*snapshot, error) {
+	meta, err := s.metaOf(index)
 	if err != nil {
 		return nil, err
 	}
@@ -129,14 +148,21 @@ func (s *snapshots) open() (*snapshot, error) {
 	if err != nil {
 		return nil, err
 	}
-	s.usedMu.Lock()
-	s.used[meta.index]++
-	s.usedMu.Unlock()
 	return &snapshot{
 		snaps: s,
 		meta:  meta,
 		file:  f,
 	}, nil
+}
+
+func (s *snapshots) unuse(index uint64) {
+	s.usedMu.Lock()
+	defer s.usedMu.Unlock()
+	if s.used[index] == 1 {
+		delete(s.used, index)
+	} else {
+		s.used[index]--
+	}
 }
 
 type snapshot struct {
@@ -147,13 +173,7 @@ type snapshot struct {
 
 func (s *snapshot) release() {
 	_ = s.file.Close()
-	s.snaps.usedMu.Lock()
-	defer s.snaps.usedMu.Unlock()
-	if s.snaps.used[s.meta.index] == 1 {
-		delete(s.snaps.used, s.meta.index)
-	} else {
-		s.snaps.used[s.meta.index]--
-	}
+	s.snaps.unuse(s.meta.index)
 }
 
 // snapshotSink ----------------------------------------------------
